@@ -152,6 +152,8 @@ type sys struct {
 	ctx    context.Context
 	cancel context.CancelFunc
 	m      *tmmirror.Mirror
+	// eng is set in engine mode: the system under test is a whole engine (node.go) instead of a bare mirror.
+	eng *node
 
 	gso   chan tmelink.NetworkViewUpdate
 	lso   chan tmelink.LagState
@@ -335,8 +337,32 @@ func (s *sys) stop() {
 	s.m = nil
 }
 
+func (s *sys) alive() bool {
+	if s.eng != nil {
+		return s.eng.e != nil
+	}
+	return s.m != nil
+}
+
+func (s *sys) handler() tmconsensus.FineGrainedConsensusHandler {
+	if s.eng != nil {
+		return s.eng.e
+	}
+	return s.m
+}
+
+func runtimeGoexit() { runtime.Goexit() }
+
 // call runs f (a Handle* call) on its own goroutine and reports whether it returned.
 func (s *sys) call(name string, f func(ctx context.Context) string) string {
+	if s.eng != nil {
+		s.eng.step = s.step
+		r := s.eng.call(name, f)
+		if r == "LIVELOCK" || r == "BLOCKED" {
+			s.blocked = s.eng.blocked
+		}
+		return r
+	}
 	if s.m == nil {
 		return "node-down"
 	}
@@ -375,6 +401,23 @@ func (s *sys) call(name string, f func(ctx context.Context) string) string {
 
 // drain performs the consumers' reads (unless stalled) until nothing is pending.
 func (s *sys) drain(force bool) {
+	if s.eng != nil {
+		n := s.eng
+		n.step = s.step
+		n.drain()
+		for len(s.gLog) < len(n.gLog) {
+			u := n.gLog[len(s.gLog)]
+			s.gSeg = append(s.gSeg, n.gSeg[len(s.gLog)])
+			s.gLog = append(s.gLog, u)
+			if u.Voting != nil {
+				n.lastVoting = u.Voting.Clone()
+			}
+			if u.Committing != nil {
+				n.lastCommitting = u.Committing.Clone()
+			}
+		}
+		return
+	}
 	for i := 0; i < 64; i++ {
 		any := false
 		select {
